@@ -8,7 +8,7 @@ G0 = 'Gen { s: ksa(key@), i: 0, j: 0 }'
 UNIT = {
  'name': 'rc4',
  'doc': 'Rc4::{new, next, encrypt} == RC4 (KSA + PRGA, Schneier 17.1 / RFC 6229) in place, panic-free, S-box stays a permutation; '
-        'lemmas over the spec: XOR involution (decrypt = encrypt) and the commutation fact units decrypt/cryptkdf trust as an axiom',
+        'lemmas over the spec (rc4_spec.rs, shared with units decrypt/cryptkdf): XOR involution (decrypt = encrypt) and the commutation fact those units used to trust as an axiom',
  'items': {
   'struct Rc4': {'kind': 'decl', 'file': F, 'header': r'^pub struct Rc4$', 'attrs': ['#[derive(Clone, Copy)]'],
      'rewrites': [{'rule': 'R2', 'find': 'i: u8', 'replace': 'pub i: u8'},
@@ -69,6 +69,8 @@ UNIT = {
                              '*final(it.seq()[k]) == old(data)@[k] ^ prga_out(prga_state(%s, k + 1))' % G0)]},
      },
      'rewrites': [
+        # R1: `rc4` is opaque in the shared spec file (units decrypt/cryptkdf see it as an uninterpreted symbol); unfold it here
+        {'rule': 'R1', 'find': 'let mut rc4 = Rc4::new(key);', 'replace': 'proof { reveal(rc4); } let mut rc4 = Rc4::new(key);'},
         {'rule': 'R1', 'find': 'for b in data.iter_mut() {',
          'replace': 'for b in data.iter_mut() { proof { assert(prga_state(%s, it.index@ as int + 1) == prga_step(prga_state(%s, it.index@ as int))); }' % (G0, G0)},
      ]},
